@@ -212,6 +212,7 @@ def native_replay(program, nslots=3, nbufs=3, sanitize=True, tag='replay'):
     steps = []
     cur = None
     for ln in p.stdout.split('\n'):
+      try:          # the output may be cut in the middle of a line when a sanitizer stops the process
         w = ln.split()
         if ln.startswith('step '):
             cur = {'rc': int(w[3]), 'res': int(w[5]), 'slots': {}, 'bufs': {}}
@@ -227,6 +228,8 @@ def native_replay(program, nslots=3, nbufs=3, sanitize=True, tag='replay'):
             cur.setdefault('raw', {})[int(w[1])] = {'dim': int(w[3]), 'size': int(w[5]), 'isinit': int(w[7]), 'isinit_d': int(w[9]), 'comp': int(w[11])}
         elif ln.startswith('  buf ') and cur is not None and len(w) >= 3:
             cur['bufs'][int(w[1])] = [float(x) for x in w[3:]]
+      except (IndexError, ValueError):
+        continue
     report = None
     # representation invariants on the native objects (same three as the symbolic check_state)
     inv = None
